@@ -48,7 +48,8 @@ Unit(us, t, l) ==
       dflt == Atoms[l[CHOOSE i \in firstNonNull : \A j \in firstNonNull : i <= j]]
       xobj(s, r) == ("type" :> <<"object">>) @@ ("properties" :> <<[k |-> "x", s |-> s]>>)
                     @@ (IF r THEN "required" :> <<"x">> ELSE <<>>)
-      base == [prop |-> "C08", use |-> us2, defs |-> <<>>]
+      base == [prop |-> "C08", use |-> us2, defs |-> <<>>,
+               nobuild |-> IF us2 = "optdefault" /\ Carrier(es) = "iface" THEN <<"DefaultOnWrappedEnum">> ELSE <<>>]
       docs == [i \in DOMAIN Values |-> Wrap(Values[i])] \o <<JObj(<<>>)>>
   IN
   CASE us2 = "req" -> base @@ [schema |-> xobj(es, TRUE), docs |-> docs]
